@@ -10,6 +10,8 @@ import GMModel.HeapY
     molget i <name>                      getattr(env[i], name)
     index i j                            env[i].index(env[j])
     hash i                               hash(env[i])
+    idsbad i n                           env[i].atoms_ids = [1.5] * n
+    resnamebad i                         env[i].resname = 7
 
   response: as `heapseq`; after the status of a `writegro`:  `W N` | `W F <fname> <hex bytes>`;
             `V <pyval>` after a successful molget / index / hash.
@@ -26,7 +28,7 @@ inductive YD where
   | d (o : DHeap.DOp)
   | y (o : YOp Float)
 
-def yNames : List String := ["writegro", "updtop", "molset", "molget", "index", "hash"]
+def yNames : List String := ["writegro", "updtop", "molset", "molget", "index", "hash", "idsbad", "resnamebad"]
 
 def rdOp : Rd YD := do
   match (← get) with
@@ -39,6 +41,8 @@ def rdOp : Rd YD := do
       | "molset" => do let i ← Rd.nat; let a ← Rd.str; let v ← DHeap.rdPyVal; pure (.y (.molSetAttr i a v))
       | "molget" => do let i ← Rd.nat; let a ← Rd.str; pure (.y (.molGetAttr i a))
       | "index" => do let i ← Rd.nat; let j ← Rd.nat; pure (.y (.index i j))
+      | "idsbad" => do let i ← Rd.nat; let n ← Rd.nat; pure (.y (.setIdsNonInt i n))
+      | "resnamebad" => do let i ← Rd.nat; pure (.y (.resnameNonStr i))
       | _ => do let i ← Rd.nat; pure (.y (.hash i))
     else do pure (.d (← DHeap.rdOp))
   | [] => throw "unexpected end of line"
